@@ -41,8 +41,11 @@ SCRIPTS = {
     'chain_race': (3, [('adv', 1), ('adv', 2), ('connect_bg', 'y', 1, 2), ('connect_bg', 'x', 0, 1), ('join', 'x'), ('join', 'y'), ('send', 'x', 'c', 1), ('send', 'y', 'c', 2), ('send', 'x', 'p', 3), ('send', 'y', 'p', 4), ('disc', 'x', 'c'), ('disc', 'y', 'p')]),
     # A's outgoing connect (to C, which advertises late) is pending while B connects to A
     'incoming_while_pending': (3, [('adv', 0), ('connect_bg', 'y', 0, 2), ('connect', 'x', 1, 0), ('adv', 2), ('join', 'y'), ('send', 'x', 'c', 1), ('send', 'y', 'c', 2), ('send', 'x', 'p', 3), ('send', 'y', 'p', 4), ('disc', 'x', 'c'), ('disc', 'y', 'c')]),
+    # handle allocation with a hole in the table: x and y live, x closed, z opened (reuses x's handle), x re-opened
+    # while y and z are live -> every live connection must keep a distinct handle and its own data
+    'handle_reuse': (4, [('adv', 1), ('adv', 2), ('adv', 3), ('connect', 'x', 0, 1), ('connect', 'y', 0, 2), ('disc', 'x', 'c'), ('connect', 'z', 0, 3), ('adv', 1), ('connect', 'x2', 0, 1), ('send', 'x2', 'c', 1), ('send', 'y', 'c', 2), ('send', 'z', 'c', 3), ('send', 'x2', 'p', 4), ('send', 'y', 'p', 5), ('send', 'z', 'p', 6), ('disc', 'y', 'c'), ('send', 'z', 'c', 7), ('send', 'x2', 'c', 8), ('disc', 'z', 'p'), ('disc', 'x2', 'c')]),
 }
-CLASSIC_SCRIPTS = ['pair', 'pair_pdisc', 'reconnect', 'fan_out', 'fan_in', 'chain']
+CLASSIC_SCRIPTS = ['pair', 'pair_pdisc', 'reconnect', 'fan_out', 'fan_in', 'chain', 'handle_reuse']
 
 
 def payload(tag, name):
@@ -335,11 +338,11 @@ def configs(quick):
         for init_own in ('random', 'public'):
             for adv_own in ('random', 'public'):
                 for ext in ((False,) * n, (True,) * n) + (((True,) + (False,) * (n - 1), (False,) + (True,) * (n - 1)) if not quick else ()):
-                    for order in orders if (not quick or n == 2) else (orders[0], orders[-1], orders[2]):
+                    for order in orders if ((not quick and n < 4) or n == 2) else (orders[0], orders[-1], orders[2]):
                         out.append(({'transport': 'le', 'init_own': init_own, 'adv_own': [adv_own] * n, 'ext': list(ext), 'order': list(order)}, script))
     for script in CLASSIC_SCRIPTS:
         n = SCRIPTS[script][0]
-        for order in itertools.permutations(range(n)):
+        for order in list(itertools.permutations(range(n)))[:: (1 if n < 4 else 5)]:
             out.append(({'transport': 'classic', 'init_own': 'public', 'adv_own': ['public'] * n, 'ext': [False] * n, 'order': list(order)}, script))
     return out
 
@@ -414,7 +417,7 @@ def run(ctx: core.Context) -> int:
         ctx,
         LEVEL,
         rule=(
-            'scripts_d0: 9 scripts (connect/data/disconnect orders over 2-3 devices incl. a device that is central and peripheral at once '
+            'scripts_d0: 10 scripts (connect/data/disconnect orders over 2-3 devices incl. a device that is central and peripheral at once '
             'with racing connects) x own-address type of initiator and advertisers x legacy/extended advertising x LE/BR-EDR x controller '
             'iteration orders, default schedule; scanning: passive/active scanner x advertisers x payload lengths; schedules: representative '
             'configurations under all order-preserving delays up to the deviation bound. distinct = distinct (configuration, script) or '
